@@ -78,17 +78,18 @@ def C10():
 
 def C12():
     from contracts.colors import GetRtfColorIndex, GenerateColorTable, LEMMAS, TABLES
+    from contracts.encoder import EncodeCtx
     from contracts import replayers as R
     return Property(
         "C12",
-        units=[ContractUnit(GetRtfColorIndex()), ContractUnit(GenerateColorTable())] + LEMMAS + TABLES,
+        units=[ContractUnit(GetRtfColorIndex()), ContractUnit(GenerateColorTable()), ContractUnit(EncodeCtx())] + LEMMAS + TABLES,
         level="proof",
         technique="both functions are shown to compute the same sorted(filter(used)) term; index contract + table loop invariant + composition "
                   "lemma table[idx(c)] == rgb(c); real colour tables checked exhaustively",
         trusted_base=[SOLVERS, ENGINE, "stdlib: filtering comprehension, sorted(key=), list.index as functions of the input list with their defining axioms (DESIGN 1.7)"],
-        assumptions=["the document context (which colour list every emitter call resolves against) and collect_document_colors coverage "
-                     "are not yet under contract in this check; font table references likewise"],
-        replayers={"services/color_service.py::ColorService": R.replay_color_index, "lemma::c12": R.replay_color_index},
+        assumptions=["collect_document_colors coverage of every emitted colour attribute and font-table references are not yet under contract in this check"],
+        replayers={"services/color_service.py::ColorService": R.replay_color_index, "lemma::c12": R.replay_color_index,
+                   "encoding/unified_encoder.py::UnifiedRTFEncoder.encode": R.replay_purity},
         design_ref="4/C12, A17",
     )
 
@@ -162,7 +163,47 @@ def C18():
     )
 
 
-PROPERTIES = {"C18": C18, "C04": C04, "C06": C06, "C08": C08, "C10": C10, "C12": C12, "C16": C16, "C19": C19}
+def C14():
+    from contracts.frames import UNITS_SCAN
+    from contracts.encoder import EncodeCtx
+    from contracts.attributes import UpdateCell, UpdateRow
+    from contracts import replayers as R
+    return Property(
+        "C14",
+        units=UNITS_SCAN + [ContractUnit(EncodeCtx()), ContractUnit(UpdateCell()), ContractUnit(UpdateRow())],
+        level="proof",
+        technique="frame (modifies) contract over the encode call graph: every store/mutator site of the real AST must be justified by a "
+                  "mechanically checked rule; colour-context protocol proved on the real UnifiedRTFEncoder.encode with a fault injected at every call",
+        trusted_base=[SOLVERS, ENGINE, "library internals (polars, pydantic, Pillow) keep no cross-call state visible to rtflite",
+                      "call graph over-approximated by method name; fresh-expression rules of pyvc/frames.py"],
+        assumptions=["documents constructed from components they do not share with a document of another column count "
+                     "(constructor stores: known finding)"],
+        replayers={"table::": R.replay_purity, "encoding/unified_encoder.py::UnifiedRTFEncoder.encode": R.replay_purity,
+                   "attributes.py::BroadcastValue": R.replay_broadcast},
+        design_ref="4/C14, 1.6",
+    )
+
+
+def C15():
+    from contracts.frames import UNITS_SCAN
+    from contracts.encoder import EncodeCtx
+    from contracts import replayers as R
+    return Property(
+        "C15",
+        units=[UNITS_SCAN[0], ContractUnit(EncodeCtx())],
+        level="proof",
+        technique="sufficient condition: no state shared between threads is written during rtf_encode (frame contract over the call graph); the "
+                  "colour context is context-local and set/cleared around every pipeline call",
+        trusted_base=[SOLVERS, ENGINE, "CPython: threads share only module/class state and arguments; dict stores are GIL-atomic; "
+                      "contextvars are per thread", "library internals are thread-safe for independent inputs"],
+        assumptions=["concurrently encoded documents share no mutable component objects",
+                     "a lock-based design would be undecided for this technique, not violated (L6)"],
+        replayers={"table::": R.replay_threads, "encoding/unified_encoder.py::UnifiedRTFEncoder.encode": R.replay_threads},
+        design_ref="4/C15, 1.6",
+    )
+
+
+PROPERTIES = {"C14": C14, "C15": C15, "C18": C18, "C04": C04, "C06": C06, "C08": C08, "C10": C10, "C12": C12, "C16": C16, "C19": C19}
 
 # ---- texts for MANIFEST.json (tools/gen_manifest.py) ------------------------------------------------------
 MANIFEST_TEXT = {
@@ -202,6 +243,20 @@ MANIFEST_TEXT = {
                 "index and rgb/rtf agreement.",
         "note": "filter/sorted/index are assumed stdlib contracts (functions of the input list with their defining axioms). Which colour list "
                 "is current when an emitter asks (document context on the three encode paths) is named as not yet under contract.",
+    },
+    "C14": {
+        "text": "Purity as a frame property: all store and mutator sites reachable from rtf_encode (enumerated from the real AST on every run) "
+                "are shown to hit objects created in the activation, pipeline-local objects, or the context-local colour context; no caller "
+                "component, module or class state is written, no DataFrame is mutated in place, no file is written; the colour context equals "
+                "this document's colours at every pipeline call and is None again on every exit, including every exceptional one.",
+        "note": "Rule-based ownership analysis (over-approximated call graph, syntactic freshness); library purity assumed. The constructor's "
+                "col_rel_width defaults written into caller-owned components are a recorded known finding.",
+    },
+    "C15": {
+        "text": "Non-interference by absence of shared writes: the same frame contract shows rtf_encode writes no module/class/singleton state "
+                "except the ContextVar-backed colour context (thread-local) and a registry of constants; hence each thread's reads see only "
+                "thread-private or never-written state, for every interleaving.",
+        "note": "Sufficient condition only; relies on CPython's memory model assumptions and on the documents not sharing mutable components.",
     },
     "C16": {
         "text": "Proofs on the real figure service: the payload is the consecutive 80-character windows of data.hex() joined by newlines "
